@@ -433,8 +433,17 @@ func cmdCheck(args []string) int {
 			fmt.Fprintln(os.Stderr, "workers:", err)
 			return 2
 		}
-		// determinism subset: the first 8 indices again, one process, GOMAXPROCS=1
-		det, err := runWorkers(en, seed, *tier, 1, 8, 60, tmpDir, 8, []string{"GOMAXPROCS=1"})
+		// determinism subset: the first indices again with GOMAXPROCS=1, each in a
+		// process of its own - as in the main run, where index i is the first
+		// scenario of worker i. (Running them one after the other in ONE process
+		// would compare different process histories: code under test that keeps a
+		// harmless process-wide table - an intern pool, a cache - makes the
+		// instrumented event log depend on what ran before.)
+		detN := 8
+		if nw < detN {
+			detN = nw
+		}
+		det, err := runWorkers(en, seed, *tier, detN, detN, 60, tmpDir, 8, []string{"GOMAXPROCS=1"})
 		if err != nil {
 			fmt.Fprintln(os.Stderr, "determinism run:", err)
 			return 2
